@@ -17,6 +17,10 @@ import (
 
 var c06Patterns = []string{"snowflake.torproject.net$", "^snowflake.torproject.net$", "torproject.net$", ".torproject.net$", "$", "", "net$", "example.com$", "^example.com$", "flake.torproject.net$"}
 
+// patterns a proxy may send: the above, plus spellings that differ from them in letter case only (the
+// matcher compares bytes, so these accept other names than their lower-case forms)
+var c06Polled = append(append([]string{}, c06Patterns...), "Snowflake.TorProject.net$", "torproject.NET$", "^SNOWFLAKE.torproject.net$", ".Net$")
+
 // refSuperset: does every hostname accepted by b also get accepted by a?  Independent of the
 // implementation: exact patterns accept one name, suffix patterns accept every name with the suffix.
 func refSuperset(a, b string) bool {
@@ -59,7 +63,7 @@ func init() {
 			cw := &c06World{}
 			x.User = cw
 			cw.allowed = c06Patterns[vs.Choose("allowed", len(c06Patterns))]
-			cw.polled = c06Patterns[vs.Choose("polled", len(c06Patterns))]
+			cw.polled = c06Polled[vs.Choose("polled", len(c06Polled))]
 			cw.present = vs.Choose("present", 2) == 0
 			cw.presumed = c06Patterns[vs.Choose("presumed", cfgInt(x, "presumed", 4))]
 			// an earlier poll on the same broker (served by a client of its own if it is accepted): whatever
